@@ -109,6 +109,7 @@ type fnCtx struct {
 	reads        []readEvent
 	modelVars    []modelVar
 	firstIter    []string
+	noCands      bool
 	resetRecv    string
 	lastAdded    ssa.Value
 	lastAddedVal *Val
